@@ -331,6 +331,9 @@ class Pair:
         with e as o:
             return o.process_message(data)
 
+    def first_init_req(self):
+        return bytes(self.a.ike_sa_init_req_data)
+
     def init_req(self):
         tsi, tsr = self.acquire_tss()
         return self.A.call(self.a.process_acquire, tsi, tsr, 1)
